@@ -22,6 +22,11 @@ fn digest(s: &str) -> String {
 }
 
 pub fn observe() -> Value {
+    observe_full(false)
+}
+
+/// `full`: also the Debug text of every pool's settings and addresses (mirrors included)
+pub fn observe_full(full: bool) -> Value {
     let cfg = get_config();
     let mut cpools = vec![];
     let mut names: Vec<&String> = cfg.pools.keys().collect();
@@ -43,16 +48,24 @@ pub fn observe() -> Value {
         }
         let obj = seen.iter().position(|(p, _, _)| *p == ptr).unwrap();
         let mut servers = vec![];
+        let mut addr_dbg = String::new();
         for s in 0..pool.shards() {
             for i in 0..pool.servers(s) {
                 let a = pool.address(s, i);
-                servers.push(json!({"shard": s, "port": a.port, "role": format!("{:?}", a.role)}));
+                servers.push(json!({"shard": s, "port": a.port, "role": format!("{:?}", a.role), "host": a.host, "index": i,
+                                    "mirrors": a.mirrors.iter().map(|m| json!([m.host, m.port, m.address_index])).collect::<Vec<_>>()}));
+                addr_dbg.push_str(&format!("{}:{}:{:?}:{}:{}:{:?};", a.host, a.port, a.role, a.shard, a.database,
+                                           a.mirrors.iter().map(|m| (m.host.clone(), m.port, m.address_index)).collect::<Vec<_>>()));
             }
         }
+        let mut bans: Vec<Value> = pool.get_bans().iter().map(|(a, _)| json!([a.shard, a.address_index])).collect();
+        bans.sort_by_key(|b| b.to_string());
+        let settings_dbg = format!("{:?}|{}", pool.settings, addr_dbg);
         pools.push(json!({"db": id.db, "user": id.user, "hash": format!("{:016x}", pool.config_hash), "obj": obj,
                           "mode": format!("{:?}", pool.settings.pool_mode), "pool_size": pool.settings.user.pool_size,
                           "default_role": format!("{:?}", pool.settings.default_role), "password": pool.settings.user.password, "servers": servers,
-                          "statement_timeout": pool.settings.user.statement_timeout, "paused": pool.paused()}));
+                          "statement_timeout": pool.settings.user.statement_timeout, "paused": pool.paused(), "bans": bans, "shards": pool.shards(),
+                          "settings_digest": digest(&settings_dbg), "settings": if full { json!(settings_dbg) } else { Value::Null }}));
     }
     drop(all); // the temporary clones made by get_all_pools() must not count as holders
     // every pool object ever seen: how many ConnectionPool clones (store + clients) still exist
